@@ -16,6 +16,7 @@ exit 2 HARNESS-ERROR.
 from __future__ import annotations
 
 import hashlib
+import zlib
 import json
 import os
 import sys
@@ -109,6 +110,71 @@ class Result:
         self.inconclusive = inconclusive
         self.observations = observations or {}
         self.key = key                  # optional explicit distinctness key
+
+
+class _FormatHandler:
+    """what a user's log handler does with a record: build the message (exceptions while doing so are reported by the
+    logging package, they never reach the caller of the logging function)"""
+    level = 0
+
+    def handle(self, record):
+        try:
+            record.getMessage()
+        except Exception:  # noqa
+            pass
+        return True
+
+
+class logging_mode:
+    """Context manager: inside it the library logs as it does for a user who has switched DEBUG logging on (every record
+    is formatted, nothing is printed); outside, logging is disabled as bootstrap() left it."""
+
+    def __init__(self, on):
+        self.on = bool(on)
+
+    def __enter__(self):
+        import logging
+
+        self.saved = None
+        if self.on:
+            root = logging.getLogger()
+            self.saved = (logging.root.manager.disable, root.level, list(root.handlers))
+            logging.disable(logging.NOTSET)
+            root.setLevel(logging.DEBUG)
+            root.handlers = [_FormatHandler()]
+        return self
+
+    def __exit__(self, *exc):
+        import logging
+
+        if self.saved is not None:
+            root = logging.getLogger()
+            root.handlers = self.saved[2]
+            root.setLevel(self.saved[1])
+            logging.disable(self.saved[0])
+        return False
+
+
+def wants_logging(case) -> bool:
+    """the logging mode of a case: its own "debug" entry if it has one, else a fixed function of the case (one in four)"""
+    if isinstance(case, dict) and "debug" in case:
+        return bool(case["debug"])
+    try:
+        return zlib.crc32(canon(case).encode()) % 4 == 0
+    except Exception:  # noqa
+        return False
+
+
+def with_logging(run):
+    """wrap an oracle so that it runs each case in the case's logging mode"""
+    def wrapped(case):
+        on = wants_logging(case)
+        with logging_mode(on):
+            res = run(case)
+        if on and "debug_logging" not in res.classes:
+            res.classes = tuple(res.classes) + ("debug_logging",)
+        return res
+    return wrapped
 
 
 def canon(case) -> str:
@@ -254,7 +320,7 @@ def hypothesis_unit(check, stats: Stats, *, strategy, examples, seed, label="hyp
             _eng.MAX_SHRINKING_SECONDS = int(os.environ.get("VERIF_SHRINK_S", "90"))
     except Exception:
         pass
-    run = run or check.run_case
+    run = with_logging(run or check.run_case)
     last = {}
     phases = [Phase.generate] + ([Phase.shrink] if shrink else [])
 
@@ -288,7 +354,7 @@ def enumeration_unit(check, stats: Stats, *, cases, label="enum", known_ids=(),
                      exhaustive=True, run=None, stop_after=5, sample_every=1):
     """Run the oracle over an explicit iterable of cases (an enumerated finite
     space or a shard of it).  Violations are collected (not only the first)."""
-    run = run or check.run_case
+    run = with_logging(run or check.run_case)
     t0 = time.time()
     n = 0
     for case in cases:
@@ -422,7 +488,7 @@ def main(check_name: str, argv) -> int:
         path = os.path.join(VERIF, entry["replay"])
         try:
             case = json.load(open(path))["case"]
-            fn = getattr(check, "replay_known", None) or getattr(check, "replay", None) or check.run_case
+            fn = with_logging(getattr(check, "replay_known", None) or getattr(check, "replay", None) or check.run_case)
             res = fn(case)
         except Exception as exc:  # noqa
             total.errors.append("known replay %s: %s\n%s" % (fid, exc, traceback.format_exc()))
@@ -505,7 +571,7 @@ def _replay(check, path) -> int:
     try:
         blob = json.load(open(path))
         case = blob["case"]
-        fn = getattr(check, "replay", None) or check.run_case
+        fn = with_logging(getattr(check, "replay", None) or check.run_case)
         res = fn(case)
     except Exception as exc:  # noqa
         print("HARNESS-ERROR %s replay: %s" % (check.ID, exc))
